@@ -303,7 +303,7 @@ impl<'a> Runner<'a> {
         use std::io::{Read, Write};
         use std::os::unix::process::ExitStatusExt;
         let spawn = || {
-            std::process::Command::new(std::env::current_exe().ok()?)
+            std::process::Command::new(crate::fw::self_exe().ok()?)
                 .args(["--child", "C06", self.e.name])
                 .env("GXV_C06_DIR", &self.dir)
                 .env("RUST_BACKTRACE", "0")
@@ -365,7 +365,7 @@ impl<'a> Runner<'a> {
     #[allow(dead_code)]
     fn stderr_of(&self, input: &[u8]) -> String {
         use std::io::Write;
-        let Ok(exe) = std::env::current_exe() else { return String::new() };
+        let Ok(exe) = crate::fw::self_exe() else { return String::new() };
         let Ok(mut p) = std::process::Command::new(exe)
             .args(["--child", "C06", self.e.name])
             .env("GXV_C06_DIR", &self.dir)
